@@ -101,6 +101,8 @@ func (g *Gen) makeReplay(ob *Obligation, f *OblReport, dir, repo, verif string) 
 				if ok {
 					path = testPath
 				}
+			} else if log != "" {
+				fmt.Fprintf(&b, "\nreplay on the real code: %s\n", log)
 			}
 		}
 	}
